@@ -583,6 +583,11 @@ def t_comment_end(facts, res, tier):
         rt = norm(rhs)
         res.inst(key, True, {"continues_with": rt})
         if re.match(r"^&?remaining\[", rt):
+            # .. and behind the two characters of the opener: resumed at the `/*` itself, its `*` and a `/` that follows spell `*/`
+            # and the comment `/*/ .. */` closes itself
+            if not re.match(r"^&?remaining\[\(?\(?\w+\.len\(\)\)?\+2\)?\.\.\]$", rt):
+                res.fail("T-COMMENT-END:process:resumes-at-opener", facts.where(fn, rem[0]),
+                         "after `/*` the scanner continues with `%s`, which does not skip the two characters of the opener: in `/*/` the `*` of the opener and the next `/` are taken for the end of the comment" % rt)
             continue
         # a binder: where does it come from?
         src = None
